@@ -104,6 +104,7 @@ fn main() {
         }
         "rec-stages-tri" => stages::rec_stages_tri(geti(&m, "n", 2), geti(&m, "l", 840), geti(&m, "from", 0) as usize, geti(&m, "stride", 1) as usize,
             geti(&m, "matrix", 40) as usize, geti(&m, "rid0", 1) as u64),
+        "stage-inputs" => stages::stage_inputs(gets(&m, "file", "")),
         "replay-sweep" => stages::replay_sweep(gets(&m, "file", "")),
         "replay-pi" => {
             let (fr, off, ax) = (geti(&m, "frame", 0) as i32, geti(&m, "offset", 0), m.contains_key("only-axis"));
